@@ -118,6 +118,9 @@ Proof.
   rewrite space_sp. rewrite space_tok by reflexivity. reflexivity.
 Qed.
 
+Lemma skip_st_lf s : skip_while is_space_tab (x0a :: s) = x0a :: s.
+Proof. reflexivity. Qed.
+
 Lemma space_sp_if b s : space (sp_if b ++ s) = space s.
 Proof. destruct b; reflexivity. Qed.
 
@@ -157,7 +160,7 @@ Proof.
   unfold indirect_object.
   set (fuel := fuel_for (write_indirect_object id g o ++ post)).
   assert (Hfuel : (length (write_object o ++ rest) + 2 <= fuel)%nat).
-  { unfold fuel, fuel_for. rewrite Es. repeat (rewrite app_length; cbn [length]). rewrite app_length. lia. }
+  { unfold fuel, fuel_for. rewrite Es. repeat (rewrite app_length; cbn [length]). lia. }
   rewrite Es. rewrite indirect_head by assumption. rewrite ptag_app.
   rewrite space_lf, space_sp_if.
   destruct fuel as [|fuel]; [lia|].
@@ -170,13 +173,9 @@ Proof.
     2:{ rewrite write_stream_eq, <- app_assoc in Hfuel. lia. }
     2:{ exact Hn. }
     rewrite <- !app_assoc. rewrite space_tok by reflexivity. rewrite ptag_app.
-    cbn [app skip_while is_space_tab byte_eqb]. 
-    change (skip_while is_space_tab (x0a :: (c ++ x0a :: bs "endstream") ++ rest))
-      with (x0a :: (c ++ x0a :: bs "endstream") ++ rest).
-    cbn [eol]. rewrite dict_get_norm, Hlen. cbn [option_map norm_obj].
+    cbn [app]. rewrite skip_st_lf. cbn [eol]. rewrite dict_get_norm, Hlen. cbn [option_map norm_obj].
     replace (Z.of_nat (length c) <? 0)%Z with false by (symmetry; apply Z.ltb_ge; lia).
     rewrite <- app_assoc. rewrite take_N_app. cbn [app eol].
-    change (x65 :: x6e :: x64 :: x73 :: x74 :: x72 :: x65 :: x61 :: x6d :: rest) with (bs "endstream" ++ rest).
     rewrite ptag_app. unfold stream_new.
     rewrite dict_set_same by (rewrite dict_get_norm, Hlen; reflexivity).
     reflexivity. }
@@ -185,9 +184,7 @@ Proof.
     rewrite space_tok by (rewrite write_dict_eq; reflexivity).
     unfold stream_p.
     rewrite (dictionary_entry_rt d rest (S fuel) Hw) by (try exact Hn; lia).
-    unfold rest at 1. cbn [need_end_separator variant existsb sp_if app]. 
-    replace (existsb (String.eqb "Dictionary") NEED_END_SEPARATOR) with false by reflexivity.
-    cbn [sp_if app]. rewrite space_lf. rewrite space_tok by reflexivity.
+    unfold rest at 1. rewrite space_sp_if, space_lf. rewrite space_tok by reflexivity.
     change (ptag (bs "stream") (bs "endobj" ++ x0a :: post)) with (@PErr unit).
     rewrite (direct_objects_rt (ODict d) rest (S fuel) Hw (follow_end _ post)) by (try exact Hn; lia).
     reflexivity. }
@@ -197,4 +194,28 @@ Proof.
   all: unfold stream_p; rewrite dictionary_other by (try exact Hw; intros d0; discriminate).
   all: rewrite (direct_objects_rt _ rest (S fuel) Hw (follow_end _ post)) by (try exact Hn; lia).
   all: reflexivity.
+Qed.
+
+(* ---------- composed with offsets_exact: every object is found at its recorded offset ---------- *)
+Theorem object_at_recorded_offset xt d id g o :
+  so_status (save xt d) = SaveOk -> small_file xt d ->
+  NoDup (obj_numbers (d_objects d)) -> In ((id, g), o) (d_objects d) -> skipped o = false ->
+  id <= u32_max -> g <= u16_max -> top_wf o -> (nest o <= MAX_DEPTH)%nat ->
+  exists off,
+    Save.xget (xmap_of d) id = Some (Save.XNormal off g) /\
+    off <= Loader.blen (so_bytes (save xt d)) /\
+    indirect_object (from off (so_bytes (save xt d))) None = IOk (id, g) (norm_obj o).
+Proof.
+  intros Hok Hsmall Hnd Hin Hsk Hi Hg Hw Hn.
+  destruct (offsets_complete d id g o Hnd Hin Hsk) as [pre [post [Hb Hx]]].
+  destruct (save_ok_shape xt d Hok) as [mid [Hs _]].
+  assert (Ebytes : so_bytes (save xt d) =
+                   pre ++ write_indirect_object id g o ++ (post ++ mid ++ startxref_bytes (Save.blen (body_of d)))).
+  { rewrite Hs, Hb. rewrite <- !app_assoc. reflexivity. }
+  assert (Hpre : Save.blen pre < u32_mod).
+  { unfold small_file in Hsmall. rewrite Ebytes in Hsmall. unfold Save.blen in *. rewrite app_length in Hsmall. lia. }
+  exists (Save.blen pre). rewrite N.mod_small in Hx by exact Hpre. split; [exact Hx|]. split.
+  - rewrite Ebytes. unfold Loader.blen, Save.blen. rewrite app_length. lia.
+  - rewrite Ebytes. change (Save.blen pre) with (Loader.blen pre). rewrite from_app.
+    apply indirect_object_rt; assumption.
 Qed.
